@@ -39,7 +39,7 @@
    certificate rounds the same for the certificate votes with the
    certificate look-back set, seed, step and the threshold of the version
    recorded on the certificate look-back header. *)
-From VF.C01 Require Import Model Proofs ProofsB ProofsC Bridge.
+From VF.C01 Require Import Model ModelH Proofs ProofsB ProofsC ProofsD Bridge.
 From VF.gen Require Import C01Tables.
 Local Open Scope N_scope.
 
@@ -133,6 +133,88 @@ Theorem C01_listed_keys_signed :
 Proof. exact listed_keys_signed. Qed.
 Print Assumptions C01_listed_keys_signed.
 
+
+(* ---- the ordinary path: VerifyHeader / verifyHeader(parents) -------------------------------- *)
+(* [selection yts c parents h yp seedH lb certH certlb]: yp is the version recorded on the
+   header VersionForRoundWithParents finds for h's round (canonical chain first, then the
+   batch prefix); seedH / lb / certH / certlb are the seed header, the reader of the stake
+   look-back header's validator root and the certificate look-backs getLookBackHeader finds
+   (batch prefix when the look-back lies inside it, else canonical chain).
+   Acceptance of a non-genesis header with the seal flag on implies C01_statement for exactly
+   these objects, the header signature by the proposer key, and the frame checks (time not in
+   the future, mix digest, parent link, strictly later than the parent, no other canonical
+   header at that height). *)
+Theorem C01_header_path :
+  forall (O : oracles) (signed : blskey -> payload -> Prop),
+    (forall pubs pl s, o_bls O pubs pl s = Some true -> forall k, In k pubs -> signed k pl) ->
+    (forall h st t tot j, o_seats O h st t tot = Some j -> (0 <= j)%Z) ->
+    forall (sealed : key -> N -> Prop),
+    (forall hh s k, o_recover O hh s = Some k -> sealed k hh) ->
+    forall now yts c parents xh,
+      verify_header O fixed now yts c parents xh true = HV Accept -> 0 < h_number (x_h xh) ->
+      exists yp seedH lb certH certlb,
+        selection yts c parents (x_h xh) yp seedH lb certH certlb /\
+        frame_ok now c parents yp xh /\
+        C01_statement O signed (yp_cp yp) (cp_table yts) seedH lb certH certlb (x_h xh) /\
+        seal_ok O sealed (x_h xh).
+Proof. exact header_accept. Qed.
+Print Assumptions C01_header_path.
+
+(* ... and with a batch prefix of consecutive numbers ending right below the header (what
+   VerifyHeaders passes for a contiguous batch; [] for VerifyHeader) the selected objects are
+   the version recorded on header n-8 (protocolRoundBack), header n-SeedLookBack, the
+   validator root of header n-StakeLookBack and, in certificate rounds, header n-F and the
+   validator root of header n-2F, F = ACoCHTFrequency (each clamped at 0), with SeedLookBack
+   and StakeLookBack those of that version *)
+Theorem C01_selection_numbers :
+  forall yts c parents h yp seedH lb certH certlb,
+    parents_consecutive parents (h_number h) ->
+    selection yts c parents h yp seedH lb certH certlb ->
+    let n := h_number h in
+    (exists vh, version_header c parents n = inl (Some vh) /\ h_number (x_h vh) = lb_number n protocol_round_back /\
+                lookup_yp yts (h_version (x_h vh)) = Some yp) /\
+    h_number seedH = lb_number n (yp_seed_lb yp) /\
+    (exists stakeX, h_number (x_h stakeX) = lb_number n (yp_stake_lb yp) /\
+                    lookup_reader (ch_readers c) (x_valroot stakeX) = Some lb) /\
+    (is_cert_round n = true ->
+     h_number certH = lb_number n cht_frequency /\
+     exists cstakeX, h_number (x_h cstakeX) = lb_number n (2 * cht_frequency) /\
+                     lookup_reader (ch_readers c) (x_valroot cstakeX) = Some certlb).
+Proof. exact selection_numbers. Qed.
+Print Assumptions C01_selection_numbers.
+
+(* ---- the certificate-only path: VerifyAcHeader ------------------------------------------------ *)
+(* acceptance implies a quorum certificate over the header's certificate votes for: the seed
+   and version of header n-F and the validator set of header n-2F (canonical chain, else the
+   first header of that number in the trusted list), threshold CertValThreshold of that
+   version, round index of the Certificate container.  Nothing about the proposer or the
+   header signature: this entry point checks neither. *)
+Theorem C01_ac_votes_quorum :
+  forall (O : oracles) (signed : blskey -> payload -> Prop),
+    (forall pubs pl s, o_bls O pubs pl s = Some true -> forall k, In k pubs -> signed k pl) ->
+    forall V yts c trusted xh,
+      verify_ac O V yts c trusted xh = HV Accept ->
+      let h := x_h xh in
+      let n := h_number h in
+      exists uc cd seedX stakeX yp seedCon lb,
+        x_cht xh = true /\ n mod cht_frequency = 0 /\
+        h_cert h = Some uc /\ h_cons h = Some cd /\
+        (match by_number c (lb_number n cht_frequency) with Some x => Some x
+         | None => find_trusted trusted (lb_number n cht_frequency) end) = Some seedX /\
+        h_number (x_h seedX) = lb_number n cht_frequency /\
+        (match by_number c (lb_number n (2 * cht_frequency)) with Some x => Some x
+         | None => find_trusted trusted (lb_number n (2 * cht_frequency)) end) = Some stakeX /\
+        h_number (x_h stakeX) = lb_number n (2 * cht_frequency) /\
+        lookup_yp yts (h_version (x_h seedX)) = Some yp /\ h_cons (x_h seedX) = Some seedCon /\
+        lookup_reader (ch_readers c) (x_valroot stakeX) = Some lb /\
+        let cm := mkCommon (yp_cp yp) lb (h_hash h) (cd_seed seedCon) (cd_round cd) (uv_index uc) (cp_cvt (yp_cp yp)) in
+        let L := counted_from O V cm step_certificate [] (uv_certs uc) in
+        quorum_cert O signed lb (cd_seed seedCon) (uv_index uc) step_certificate (cp_cvt (yp_cp yp)) false
+                    (h_hash h, cd_round cd, uv_index uc) (uv_certs uc) L /\
+        (check_member V = true -> all_members L).
+Proof. exact ac_accept. Qed.
+Print Assumptions C01_ac_votes_quorum.
+
 (* ---- bridge: real protocol tables -------------------------------------------------------- *)
 (* for every version of every net: BLS on, thresholds positive, and the quorum
    computed by the Go float code equals floor(T*685/1000) resp. floor(T*585/1000) > 0 *)
@@ -191,3 +273,13 @@ Print Assumptions C01_nonvacuous_junk.
 Example C01_nonvacuous_tables : all_versions <> [].
 Proof. exact real_versions_nonempty. Qed.
 Print Assumptions C01_nonvacuous_tables.
+
+(* the ordinary path accepts an honest header, directly and behind a (consecutive) batch
+   prefix; the certificate-only path accepts an honest certificate header *)
+Example C01_nonvacuous_header_path :
+  (verify_header w_O fixed 2000 w_yts w_chain [] w_target true = HV Accept /\
+   verify_header w_O fixed 2000 w_yts w_chain_batch [w_x99] w_target true = HV Accept /\
+   parents_consecutive [w_x99] (h_number (x_h w_target))) /\
+  verify_ac w_O fixed w_yts w_ac_chain [w_x32768] w_ac_target = HV Accept.
+Proof. split; [exact w_header_accept|exact w_ac_accept]. Qed.
+Print Assumptions C01_nonvacuous_header_path.
